@@ -11,10 +11,11 @@ EXTENDS ArpHunt, Json
 CONSTANTS T1, T2, T3, A1, A2,       \* the members of Targets / LanIPs by name
           MaxLoops, MaxDepth, Bounded, ExportEvery,
           WithOffer,                \* include SetDHCPv4IPOffer calls
+          CaptureMACs,              \* MACs the application may flag with Session.Capture / Release (environment; a pure product in the graph)
           NarrowES,                 \* TRUE: received packets always have Ethernet source = ARP sender (the big 3-loop configuration)
           RecvOps, RecvSI, RecvTI   \* received packets: operations, sender addresses, target addresses
 VARIABLES bad, depth, hist
-mcvars == <<hunt, loops, closed, offer, hostOf, pend, out, ev, refHunt, refClosed, refOffer, rl, poisoned, pre, bad, depth, hist>>
+mcvars == <<hunt, loops, closed, offer, hostOf, pend, captured, out, ev, refHunt, refClosed, refOffer, rl, poisoned, pre, bad, depth, hist>>
 
 \* t1 and t2 share address a1 (DESIGN #23); t1 may also be started under a second address
 StartChoices == {<<T1, A1>>, <<T2, A1>>, <<T3, A2>>, <<T1, A2>>, <<NilMAC, A1>>, <<T3, V6>>, <<T2, NoIP>>}
@@ -40,6 +41,9 @@ MCNext == (~Bounded \/ depth < MaxDepth) /\
         /\ StartCheck(c[1], c[2]) /\ Step([a |-> "scheck", mac |-> c[1], ip |-> c[2]])
   \/ \E m \in Targets : StartInsert(m) /\ Step([a |-> "sinsert", mac |-> m])
   \/ \E m \in Targets : StopHunt(m) /\ Step([a |-> "stop", mac |-> m])
+  \/ \E m \in CaptureMACs :
+        \/ m \notin captured /\ Capture(m, TRUE) /\ Step([a |-> "capture", mac |-> m])
+        \/ m \in captured /\ Capture(m, FALSE) /\ Step([a |-> "release", mac |-> m])
   \/ ~closed /\ Close /\ Step([a |-> "close"])
   \/ WithOffer /\ \E c \in OfferChoices : offer[c[1]] # c[2] /\ Offer(c[1], c[2]) /\ Step([a |-> "offer", mac |-> c[1], ip |-> c[2]])
   \/ \E l \in 1..Len(loops) :
@@ -75,7 +79,7 @@ ExportBad == (Bounded /\ bad # "none" /\ ev.kind # "init") => PrintT(ToJson([bad
 
 NotBad == bad = "none"     \* CONSTRAINT of the counterexample-export configuration: do not expand beyond a failure
 
-View == <<hunt, loops, closed, offer, hostOf, pend, refHunt, refClosed, refOffer, rl, poisoned, bad, depth>>
+View == <<hunt, loops, closed, offer, hostOf, pend, captured, refHunt, refClosed, refOffer, rl, poisoned, bad, depth>>
 
 -----------------------------------------------------------------------------
 (* fairness configuration: after StopHunt / Close every loop instance ends *)
